@@ -417,7 +417,7 @@ class C16Engine(Engine):
     quick_budget_s = 150.0
     thorough_budget_s = 1500.0
     chunk = 10
-    run_timeout_s = 300.0
+    run_timeout_s = 900.0
     determinism_sample = 8
     needs_pristine_parent = True
     rule = ("One run = 1-3 clients with programs of <= 4 result-bearing calls (H1 / split-Bregman TVD / TVD / Jacobi / MG / "
